@@ -50,3 +50,111 @@ HARNESS(h_c12_geom_noorient) {
     for (double x : bb) OD(x);
     dump_faces(io, *c);
 }
+
+// ---------------------------------------------------------------------------------------------
+// C02: one internal force term at a time.
+// iin: [nn, nf, faces(3nf), term, nft, type_id per face (nf), face_index]
+// din: [coords(3nn), pressure, area_elasticity_modulus, target_isoperimetric_ratio, angle_regularization_factor,
+//       bulk_modulus, max_pressure, growth_rate, min_vol, dt, then per face type: surface_tension, bending_modulus]
+static cell_type_param_ptr make_cell_type(vio* io, long nn, long nf, long& term, long& face_index) {
+    const long* I = io->iin + 2 + 3 * nf;
+    term = I[0];
+    const long nft = I[1];
+    face_index = I[2 + nf];
+    const double* D = io->din + 3 * nn;
+    auto ct = std::make_shared<cell_type_parameters>();
+    ct->area_elasticity_modulus_ = D[1];
+    ct->target_isoperimetric_ratio_ = D[2];
+    ct->angle_regularization_factor_ = D[3];
+    ct->bulk_modulus_ = D[4];
+    ct->max_pressure_ = D[5];
+    ct->avg_growth_rate_ = D[6];
+    ct->std_growth_rate_ = 0.;
+    ct->min_vol_ = D[7];
+    ct->avg_division_vol_ = 1e30;
+    ct->std_division_vol_ = 0.;
+    ct->mass_density_ = 1.;
+    for (long k = 0; k < nft; k++) {
+        face_type_parameters ft;
+        ft.surface_tension_ = D[9 + 2 * k];
+        ft.bending_modulus_ = D[10 + 2 * k];
+        ct->add_face_type(ft);
+    }
+    return ct;
+}
+
+HARNESS(h_c02_forces) {
+    const long nn = io->iin[0], nf = io->iin[1];
+    long term, face_index;
+    auto ct = make_cell_type(io, nn, nf, term, face_index);
+    auto c = build_cell(io, ct);
+    c->initialize_cell_properties(true);
+    const long* types = io->iin + 2 + 3 * nf + 2;
+    for (long k = 0; k < nf; k++) c->face_lst_[k].type_id_ = (unsigned short) types[k];
+    const double* D = io->din + 3 * nn;
+    if (term == 2) {
+        // isolate one hinge: keep only the edge (iin[..+3], iin[..+4]) in the edge set, so that the loop body of
+        // apply_bending_forces runs for exactly that hinge (total force = sum over hinges)
+        const long ea = types[nf + 1], eb = types[nf + 2];
+        for (auto it = c->edge_set_.begin(); it != c->edge_set_.end();) {
+            const bool keep = (it->n1() == ea && it->n2() == eb) || (it->n1() == eb && it->n2() == ea);
+            if (keep) ++it; else it = c->edge_set_.erase(it);
+        }
+    }
+    switch (term) {
+        case 0: c->pressure_ = D[0]; c->apply_pressure_on_surface(); break;
+        case 1: c->apply_surface_tension_and_membrane_elasticity(); break;
+        case 2: c->apply_bending_forces(); break;
+        case 3: c->regularize_face_angles(c->face_lst_[face_index]); break;
+        case 4: c->apply_internal_forces(D[8]); break;
+    }
+    for (const node& n : c->get_node_lst()) OV(n.force());
+    OD(c->get_volume()); OD(c->get_area()); OD(c->get_pressure()); OD(c->get_target_volume());
+}
+
+// ---------------------------------------------------------------------------------------------
+// C04: cell-cycle law on a cell of a given class (0 epithelial, 1 ecm, 2 lumen, 3 nucleus, 4 static).
+static std::shared_ptr<cell> make_class_cell(long cls, cell_type_param_ptr ct) {
+    std::vector<double> pos = {0, 0, 0, 1, 0, 0, 0, 1, 0, 0, 0, 1};
+    std::vector<unsigned> ids = {0, 2, 1, 0, 1, 3, 0, 3, 2, 1, 2, 3};
+    switch (cls) {
+        case 0: return std::make_shared<epithelial_cell>(pos, ids, 0u, ct);
+        case 1: return std::make_shared<ecm_cell>(pos, ids, 0u, ct);
+        case 2: return std::make_shared<lumen_cell>(pos, ids, 0u, ct);
+        case 3: return std::make_shared<nucleus_cell>(pos, ids, 0u, ct);
+        default: return std::make_shared<static_cell>(pos, ids, 0u, ct);
+    }
+}
+
+// din: [V, Vt, K, Pmax, g, dt, minvol, Vdiv]  iin: [class, pmax_is_inf, vdiv_is_inf]
+HARNESS(h_c04_cycle) {
+    const double* D = io->din;
+    auto ct = std::make_shared<cell_type_parameters>();
+    ct->bulk_modulus_ = D[2];
+    ct->max_pressure_ = io->iin[1] ? std::numeric_limits<double>::infinity() : D[3];
+    ct->min_vol_ = D[6];
+    auto c = make_class_cell(io->iin[0], ct);
+    c->volume_ = D[0]; c->target_volume_ = D[1]; c->growth_rate_ = D[4];
+    c->division_volume_ = io->iin[2] ? std::numeric_limits<double>::infinity() : D[7];
+    c->update_target_volume(D[5]);
+    OD(c->get_target_volume());
+    c->update_pressure();
+    OD(c->get_pressure());
+    OI(c->is_ready_to_divide());
+    OI(c->is_below_min_vol());
+    OI(c->is_static());
+}
+
+// din: [mu_g, sigma_g, mu_div, sigma_div]  iin: [class, sigma_g_is_zero, sigma_div_is_zero, mu_div_is_inf]
+HARNESS(h_c04_random) {
+    const double* D = io->din;
+    auto ct = std::make_shared<cell_type_parameters>();
+    ct->avg_growth_rate_ = D[0];
+    ct->std_growth_rate_ = io->iin[1] ? 0. : D[1];
+    ct->avg_division_vol_ = io->iin[3] ? std::numeric_limits<double>::infinity() : D[2];
+    ct->std_division_vol_ = io->iin[2] ? 0. : D[3];
+    auto c = make_class_cell(io->iin[0], ct);
+    c->initialize_random_properties();
+    OD(c->get_growth_rate());
+    OD(c->get_division_volume());
+}
